@@ -4,7 +4,8 @@ Explicit-state exploration of request histories on the REAL ResourceManager / ve
 a reference allocator (granted set + pin->owner map, vf/ref/c19_alloc.py). The implementation's allocation is
 observed only through the behaviour of later requests. Families (each enumerated completely inside its bounds):
   S  structures: all tables of <=3 resources over 7 shapes x injective pin tuples from a pool of 4 pins
-     (modulo pin renaming / resource-list order), every request history of length L over 4 actions per resource
+     (modulo pin renaming / resource-list order; quick: 3-resource tables over P1/G11 only), every request history
+     of length 3 over 4 actions per resource + a missing resource (thorough: also length 4 on the smaller tables)
   D1 decorations: one resource x (shape, pin order, dir, inversion, attrs, clock, connector depth 0..3/mixed)
      + one probe resource per pin; all histories of length 2 (3 thorough)
   D2 override algebra: shape x declared directions, full dir x xdr override alphabet; all histories of length 2
@@ -549,6 +550,9 @@ def run(rep):
     rep.setcov("by_family", by_family)
     rep.setcov("flags_seen", sorted(allflags))
     rep.setcov("exhaustive", True)
+    rep.setcov("exhaustive_note", "history families S/D1/D2/X: complete inside the bounds below in both tiers; E: complete set of "
+               "request permutations per table; the E table list is the full structure list + every 20th decoration table "
+               "(thorough) or every 8th / 300th entry of those lists (quick), a fixed stride, never random")
     rep.setcov("rule", "every request history of the stated length over the action alphabet of every table of the families "
                "S (<=3 resources over 7 shapes x injective pin tuples from 4 pins, modulo pin renaming), D1 (all decorations of one "
                "resource + probes), D2 (all dir x xdr overrides), X (dangling connector pins) is executed on a fresh real "
